@@ -735,6 +735,15 @@ static void add_map_stats (mapping_t * m, int count) {
 
 int growMap (mapping_t *);
 
+/* size of the container that the second pass is entering, as counted by the first pass; 0 if the first pass
+   did not see this container (the two passes disagree on damaged text) */
+static int precomputed_size (int *size) {
+  if (!save_svalue_sizes || save_svalue_depth > save_max_depth)
+    return 0;
+  *size = save_svalue_sizes[save_svalue_depth - 1];
+  return 1;
+}
+
 static int restore_mapping (char **str, svalue_t * sv) {
   int size, i, mask, oi, count = 0;
   char c;
@@ -745,12 +754,14 @@ static int restore_mapping (char **str, svalue_t * sv) {
   int err;
 
   if (save_svalue_depth)
-    size = save_svalue_sizes[save_svalue_depth - 1];
-  else if ((size = restore_size (str, 1)) < 0)
     {
-      debug_error ("corrupted");
-      return 0;
+      if (!precomputed_size (&size))
+        return ROB_MAPPING_ERROR;
+      if (!size && (cp[0] != ']' || cp[1] != ')'))
+        return ROB_MAPPING_ERROR;
     }
+  else if ((size = restore_size (str, 1)) < 0)
+    return ROB_MAPPING_ERROR;
 
   if (!size)
     {
@@ -995,7 +1006,10 @@ static int restore_class (char **str, svalue_t * ret) {
   int err;
 
   if (save_svalue_depth)
-    size = save_svalue_sizes[save_svalue_depth - 1];
+    {
+      if (!precomputed_size (&size))
+        return ROB_CLASS_ERROR;
+    }
   else if ((size = restore_size (str, 0)) < 0)
     return ROB_CLASS_ERROR;
 
@@ -1071,6 +1085,8 @@ static int restore_class (char **str, svalue_t * ret) {
         }
     }
 
+  if (cp[0] != '/' || cp[1] != ')')	/* the first pass counted something else */
+    goto generic_error;
   cp += 2;
   *str = cp;
   ret->u.arr = v;
@@ -1096,7 +1112,10 @@ static int restore_array (char **str, svalue_t * ret) {
   int err;
 
   if (save_svalue_depth)
-    size = save_svalue_sizes[save_svalue_depth - 1];
+    {
+      if (!precomputed_size (&size))
+        return ROB_ARRAY_ERROR;
+    }
   else if ((size = restore_size (str, 0)) < 0)
     return ROB_ARRAY_ERROR;
 
@@ -1172,6 +1191,8 @@ static int restore_array (char **str, svalue_t * ret) {
         }
     }
 
+  if (cp[0] != '}' || cp[1] != ')')	/* the first pass counted something else */
+    goto generic_error;
   cp += 2;
   *str = cp;
   ret->u.arr = v;
